@@ -7,8 +7,9 @@
        max/min selection, ...): every operation of the exact registry has an exact VJP over any commutative ring (proof: Proofs/OpsExactP.v);
        which registry entry a MyGrad call is, is established by the exact-integer correspondence of harness/c02.py. *)
 From Coq Require Import Reals List ZArith.
+Import ListNotations.
 From Coquelicot Require Import Coquelicot.
-From MG Require Import Model.RealOps Gen.VjpScalar Proofs.VjpP1 Proofs.VjpP2 Base.EngCore Model.OpsExact Proofs.OpsExactP.
+From MG Require Import Model.RealOps Gen.VjpScalar Proofs.VjpP1 Proofs.VjpP2 Base.EngCore Model.OpsExact Proofs.OpsExactP Model.VecOps Proofs.VecP.
 Open Scope R_scope.
 
 Theorem C02_Add_vjp_0 : forall g a b, is_derive (fun x => g * Add_fwd x b) a (Add_bwd_0 g a b).
@@ -282,6 +283,40 @@ Print Assumptions C02_Arcsec_conv_m1.
 Theorem C02_Sinc_conv_0 : forall g : R, Sinc_bwd_0 g 0 = 0.
 Proof. exact Sinc_conv_0. Qed.
 Print Assumptions C02_Sinc_conv_0.
+
+(* (c) lane reductions and the softmax family (Model/VecOps.v: hand-written from the source, tied by harness/c02.py lane by lane): for a lane of ANY length
+   and every position, the derivative of <g, f> w.r.t. element i is what backward_var sends to element i; Prod needs no hypothesis about zeros *)
+Theorem C02_lane_sum_vjp : forall g l i, (i < length l)%nat -> is_derive (fun t => g * vsum (upd l i t)) (nth i l 0) (sum_bwd g l i).
+Proof. exact sum_vjp. Qed.
+Print Assumptions C02_lane_sum_vjp.
+
+Theorem C02_lane_mean_vjp : forall g l i, (i < length l)%nat -> is_derive (fun t => g * vmean (upd l i t)) (nth i l 0) (mean_bwd g l i).
+Proof. exact mean_vjp. Qed.
+Print Assumptions C02_lane_mean_vjp.
+
+Theorem C02_lane_var_vjp : forall ddof g l i, (i < length l)%nat -> vlen l - ddof <> 0 -> is_derive (fun t => g * vvar ddof (upd l i t)) (nth i l 0) (var_bwd ddof g l i).
+Proof. exact var_vjp. Qed.
+Print Assumptions C02_lane_var_vjp.
+
+Theorem C02_lane_std_vjp : forall ddof g l i, (i < length l)%nat -> vlen l - ddof <> 0 -> 0 < vvar ddof l -> is_derive (fun t => g * vstd ddof (upd l i t)) (nth i l 0) (std_bwd ddof g l i).
+Proof. exact std_vjp. Qed.
+Print Assumptions C02_lane_std_vjp.
+
+Theorem C02_lane_prod_vjp : forall g l i, (i < length l)%nat -> is_derive (fun t => g * vprod (upd l i t)) (nth i l 0) (prod_bwd g l i).
+Proof. exact prod_vjp. Qed.
+Print Assumptions C02_lane_prod_vjp.
+
+Theorem C02_lane_softmax_vjp : forall g l i, (i < length l)%nat -> length g = length l -> is_derive (fun t => dot g (vsoftmax (upd l i t))) (nth i l 0) (softmax_bwd g l i).
+Proof. exact softmax_vjp. Qed.
+Print Assumptions C02_lane_softmax_vjp.
+
+Theorem C02_lane_logsoftmax_vjp : forall g l i, (i < length l)%nat -> length g = length l -> is_derive (fun t => dot g (vlogsoftmax (upd l i t))) (nth i l 0) (logsoftmax_bwd g l i).
+Proof. exact logsoftmax_vjp. Qed.
+Print Assumptions C02_lane_logsoftmax_vjp.
+
+Theorem C02_lane_xent_vjp : forall g c y l i, (i < length l)%nat -> (y < length l)%nat -> is_derive (fun t => g * vxent c y (upd l i t)) (nth i l 0) (xent_bwd g c y l i).
+Proof. exact xent_vjp. Qed.
+Print Assumptions C02_lane_xent_vjp.
 
 (* structural operations: the registry theorem (shared with C01) *)
 Theorem C02_registry_ops_exact :
